@@ -573,6 +573,9 @@ class HttpParser(abc.ABC, Generic[_MsgT]):
 
                     payload_state = PayloadState.PAYLOAD_COMPLETE
                     data = b""
+                    # The position in the stream is lost: whatever arrives
+                    # after a body that failed must not be read as a message.
+                    self._should_close = True
                     if isinstance(
                         underlying_exc, (InvalidHeader, TransferEncodingError)
                     ):
